@@ -782,6 +782,114 @@ Definition G22_drop (n : net) (k : ekind) (ids : list Z) : bool :=
 Definition moved (lk : list (Z * Z)) (x : Z) : bool := negb (remap lk x =? x).
 Definition G22_reindex (n : net) (k : ekind) (lk : list (Z * Z)) : bool :=
   forallb (fun c => negb (ekind_beq (ctty c) k && existsb (moved lk) (ctidx c))) (ctrl n).
+(* drop_elements_simple: no controller targets a dropped element *)
+Definition G22_noctrl (n : net) (k : ekind) (ids : list Z) : bool :=
+  forallb (fun c => negb (ekind_beq (ctty c) k && existsb (fun x => zin x ids) (ctidx c))) (ctrl n).
+(* drop_buses(drop_elements=True).  arity: an element row has no more bus columns than element_bus_tuples() lists for its
+   table (schema fact; svc stands for the unlisted tables) *)
+Definition arity (k : ekind) : nat :=
+  match k with Line | Impedance | Trafo | Dcline => 2 | Trafo3w => 3 | Svc => 0 | _ => 1 end%nat.
+Definition arity_ok (n : net) : bool :=
+  forallb (fun k => negb (in_bus_tuples k) || forallb (fun r => Nat.leb (List.length (ebus r)) (arity k)) (el n k)) ekinds.
+Definition free_of (buses : list Z) (r : erow) : bool := forallb (fun b => negb (zin b buses)) (ebus r).
+(* C22-bus-tuples-incomplete: no row of an unlisted table sits at the buses *)
+Definition svc_free (n : net) (buses : list Z) : bool := forallb (free_of buses) (el n Svc).
+(* no measurement names one of the buses as its numeric side *)
+Definition sides_free (n : net) (buses : list Z) : bool :=
+  forallb (fun m => match msd m with SideBus b => negb (zin b buses) | _ => true end) (meas n).
+(* C22-drop-keeps-controller: no controller targets an element at the buses; no cost row sits on a line / trafo / trafo3w
+   at the buses (drop_lines / drop_trafos do not cascade to costs) *)
+Definition is_swk (k : ekind) : bool := match k with Line | Trafo | Trafo3w => true | _ => false end.
+Definition gat (n : net) (buses : list Z) : bool :=
+  forallb (fun c => forallb (fun r => negb (zin (eid r) (ctidx c)) || free_of buses r) (el n (ctty c))) (ctrl n) &&
+  forallb (fun c => negb (is_swk (cet c)) || forallb (fun r => negb (eid r =? cel c) || free_of buses r) (el n (cet c)))
+          (pcost n ++ wcost n).
+(* the controller part is evaluated AFTER drop_controllers_at_buses, on the state the element cascade starts from *)
+Definition G22_drop_buses (n : net) (buses : list Z) : bool :=
+  let n1 := detach n TBus buses in
+  let n2 := set_bus n1 (filter (fun b => negb (zin (fst b) buses)) (bus n1)) in
+  let n3 := set_rbus n2 (filter (fun i => negb (zin i buses)) (rbus n2)) in
+  arity_ok n && svc_free n buses && sides_free n buses && gat (drop_controllers_at_buses n3 buses) buses.
+(* the numeric side of a measurement is a bus of the measured element (every row carrying that index) / the measured bus *)
+Definition side_at_element (n : net) (m : mrow) : bool :=
+  match msd m with
+  | SideBus b => match mty m with
+                 | TBus => b =? mel m
+                 | TEl k => forallb (fun r => negb (eid r =? mel m) || zin b (ebus r)) (el n k)
+                 | _ => true
+                 end
+  | _ => true
+  end.
+Definition isnil {A} (l : list A) : bool := match l with [] => true | _ => false end.
+(* select_subnet: C22-select-subnet-keep-everything (groups, controllers and the unlisted tables are copied unfiltered) *)
+Definition G22_select (n : net) (keep_else : bool) : bool :=
+  forallb (side_at_element n) (meas n) && (negb keep_else || (isnil (grp n) && isnil (ctrl n) && isnil (el n Svc))).
+(* reindex_buses / create_continuous_bus_index: C22-bus-tuples-incomplete — the rows of the tables that
+   element_bus_tuples() does not list keep their bus values, so these must not be moved by the (completed) lookup *)
+Definition bus_lookup (n : net) (lk0 : list (Z * Z)) : list (Z * Z) :=
+  lk0 ++ map (fun b => (b, b)) (filter (fun b => negb (haskey lk0 b)) (zsort_uniq (bus_ids n))).
+Definition G22_reindex_buses (n : net) (lk0 : list (Z * Z)) : bool :=
+  forallb (fun r => forallb (fun b => remap (bus_lookup n lk0) b =? b) (ebus r)) (el n Svc).
+Definition G22_cont_bus (n : net) (start : Z) : bool :=
+  let ids := zsort_uniq (bus_ids n) in
+  G22_reindex_buses (set_bus n (flat_map (fun i => filter (fun b => fst b =? i) (bus n)) ids)) (combine ids (zrange start (List.length ids))).
+(* fuse_buses: the rerouting stage of fuse_buses (the first four steps of fuse_buses_gen true, verbatim) and its guard *)
+Definition fuse_reroute (n : net) (b1 : Z) (b2 : list Z) (fuse_meas : bool) : net :=
+  let n := set_el n (fun k => if in_bus_tuples k
+                              then map (fun r => {| eid := eid r; ebus := map (reroute b2 b1) (ebus r); eis := eis r |}) (el n k)
+                              else el n k) in
+  let n := set_sw n (map (fun s => {| sid := sid s; sbus := reroute b2 b1 (sbus s); swt := swt s; sel := if swet_eqb (swt s) SB then reroute b2 b1 (sel s) else sel s; sclosed := sclosed s |}) (sw n)) in
+  let n := if fuse_meas then
+             set_meas n (map (fun m => if tname_eqb (mty m) TBus
+                                       then {| mid := mid m; mmt := mmt m; mty := mty m; mel := reroute b2 b1 (mel m); msd := msd m |}
+                                       else m) (meas n))
+           else n in
+  let n := if fuse_meas && true then
+             set_meas n (map (fun m => match msd m with
+                                       | SideBus b => {| mid := mid m; mmt := mmt m; mty := mty m; mel := mel m; msd := SideBus (reroute b2 b1 b) |}
+                                       | _ => m end) (meas n))
+           else n in
+  n.
+(* no controller targets, and no cost row of a line / trafo / trafo3w sits on, an element all of whose buses are b1
+   (the inner branches that fuse_buses drops through drop_lines / drop_trafos / drop_elements_simple) *)
+Definition gat_inner (n : net) (b1 : Z) : bool :=
+  forallb (fun c => forallb (fun r => negb (zin (eid r) (ctidx c)) || negb (all_at b1 r)) (el n (ctty c))) (ctrl n) &&
+  forallb (fun c => negb (is_swk (cet c)) || forallb (fun r => negb (eid r =? cel c) || negb (all_at b1 r)) (el n (cet c)))
+          (pcost n ++ wcost n).
+(* b1 exists (fuse_buses does not check it); with drop: no row of an unlisted table sits at the fused buses
+   (C22-bus-tuples-incomplete), measurements are fused or none refers to the fused buses (C22-fuse-buses-measurement), and no
+   controller / branch cost sits on a branch that becomes an inner branch (C22-drop-keeps-controller) *)
+Definition G22_fuse (n : net) (b1 : Z) (b2in : list Z) (drop fuse_meas : bool) : bool :=
+  let b2 := filter (fun x => negb (x =? b1)) (zsort_uniq b2in) in
+  zin b1 (bus_ids n) &&
+  (negb drop ||
+   (svc_free n b2 &&
+    (fuse_meas || (sides_free n b2 && forallb (fun m => negb (tname_eqb (mty m) TBus && zin (mel m) b2)) (meas n))) &&
+    gat_inner (fuse_reroute n b1 b2 fuse_meas) b1)).
+(* create_continuous_elements_index: the guard follows the run of the loop (each table is judged on the state the loop has
+   reached): for an element table no controller targets a re-indexed element (C22-reindex-elements-controller) and the table
+   index and its res_ index are duplicate free (the res_ table is renumbered on its own, by position) *)
+Fixpoint nodupz (l : list Z) : bool := match l with [] => true | x :: t => negb (zin x t) && nodupz t end.
+Definition G22_cont_one (n : net) (t : tname) (start : Z) : bool :=
+  match t with
+  | TEl k => let ns := set_elk n k (sort_by eid (el n k)) in
+             let ids := el_ids ns k in
+             G22_reindex ns k (combine ids (zrange start (List.length ids))) && nodupz ids && nodupz (res n k)
+  | TBus => false
+  | _ => true
+  end.
+Fixpoint G22_cont_loop (n : net) (ts : list tname) (start : Z) : bool :=
+  match ts with
+  | [] => true
+  | t :: r => G22_cont_one n t start &&
+              match cont_one n t start with
+              | Ok n1 => G22_cont_loop (match t with TEl k => cont_res n1 k start | _ => n1 end) r start
+              | Err _ => true
+              end
+  end.
+Definition G22_cont_elements (n : net) (start : Z) : bool :=
+  G22_cont_bus n start &&
+  match cont_bus_index n start with Ok n1 => G22_cont_loop n1 cont_tables start | Err _ => true end.
 (* G22: the edits for which inv_step is proved, each with its guard; [false] = no theorem (correspondence + oracle only) *)
 Definition G22 (n : net) (o : op) : bool :=
   match o with
@@ -792,6 +900,20 @@ Definition G22 (n : net) (o : op) : bool :=
   | ODropLines ids => G22_drop n Line ids
   | ODropTrafos th ids => G22_drop n (if th then Trafo3w else Trafo) ids
   | OReindexElements (TEl k) lk => G22_reindex n k lk
+  | OSelectSubnet _ _ _ keep => G22_select n keep
+  | OFuseBuses b1 b2 d f => G22_fuse n b1 b2 d f
+  | OReindexBuses lk => G22_reindex_buses n lk
+  | OReindexElements TBus lk => G22_reindex_buses n lk
+  | OContBus start => G22_cont_bus n start
+  | OContElements start => G22_cont_elements n start
+  | OReindexElements _ _ => true
+  | ODropBuses bs true => G22_drop_buses n bs
+  | ODropElements TBus ids => G22_drop_buses n ids
+  | ODropElements (TEl Line) ids => G22_drop n Line ids
+  | ODropElements (TEl Trafo) ids => G22_drop n Trafo ids
+  | ODropElements (TEl Trafo3w) ids => G22_drop n Trafo3w ids
+  | ODropElements (TEl k) ids => G22_noctrl n k ids
+  | ODropElements _ _ => true
   | _ => false
   end.
 Fixpoint guarded (n : net) (ops : list op) : bool :=
@@ -799,3 +921,6 @@ Fixpoint guarded (n : net) (ops : list op) : bool :=
   | [] => true
   | o :: r => G22 n o && guarded (match step n o with Ok n' => n' | Err _ => n end) r
   end.
+
+(* correspondence output with the guard of the inv_step theorems evaluated on (state before, op) *)
+Definition run_step_g (n : net) (o : op) : out := OL [OB (G22 n o); run_step_delta n o].
